@@ -8,10 +8,12 @@ import (
 	"encoding/base64"
 	"encoding/json"
 	"fmt"
+	"io"
 	"net/http"
 	"net/http/httptest"
 	"strings"
 	"sync"
+	"sync/atomic"
 	"time"
 
 	"github.com/google/inverting-proxy/agent/metrics"
@@ -126,6 +128,8 @@ func newVerifShim(backendHost string, injection bool) *verifShim {
 	return &verifShim{h: h}
 }
 
+var verifCallNo int64
+
 type verifCallResult struct {
 	Status int
 	Body   []byte
@@ -146,6 +150,13 @@ func (s *verifShim) call(endpoint string, body []byte, hdr map[string]string, ti
 			resc <- res
 		}()
 		req := httptest.NewRequest("POST", "http://agent.local/verifshim/"+endpoint, bytes.NewReader(body))
+		if atomic.AddInt64(&verifCallNo, 1)%3 == 0 {
+			// every third call comes without a declared length (Transfer-Encoding: chunked, as fetch() with a stream body or an
+			// HTTP/2 hop in front sends it): net/http reports ContentLength -1
+			req = httptest.NewRequest("POST", "http://agent.local/verifshim/"+endpoint, io.MultiReader(bytes.NewReader(body)))
+			req.ContentLength = -1
+			req.TransferEncoding = []string{"chunked"}
+		}
 		for k, v := range hdr {
 			req.Header.Set(k, v)
 		}
